@@ -51,7 +51,7 @@ def main():
         logp = '/tmp/confirm-logs2/%s.log' % key
         if not os.path.exists(logp):
             print(key, 'no confirmation log yet'); continue
-        log = open(logp).read()
+        log = open(logp, errors='replace').read()
         if 'RESULT confirmed' not in log:
             print(key, 'NOT confirmed'); continue
         src = '/tmp/wt2/%s/_out/%s' % (p, n)
